@@ -91,3 +91,67 @@ package meta
 //@   property C02
 //@   opt wide=80
 //@   opt freshalloc=true
+
+// ---- C07: an object is locked while ANY of its locks is of type LOCK, unexpired and not
+// itself removed. The search over the object's associated objects may stop early only at such
+// a lock; a lock that is expired or removed must not end the search (another one may be live).
+
+//@ ghost pred candIsLock() bool
+//@ ghost pred candUnexpired() bool
+//@ ghost pred candNotRemoved() bool
+
+//@ callrule c07_candidate_type in objectLocked*
+//@   property C07
+//@   callee metabase.isObjectType
+//@   pureeffect
+//@   defines (result && a2 == object.TypeLock) ==> candIsLock()
+//@ callrule c07_candidate_expiry in objectLocked*
+//@   property C07
+//@   callee metabase.isExpired
+//@   pureeffect
+//@   defines !result ==> candUnexpired()
+//@ callrule c07_candidate_removed in objectLocked*
+//@   property C07
+//@   callee metabase.inGarbage
+//@   pureeffect
+//@   defines result == statusAvailable ==> candNotRemoved()
+//@ callrule c07_lock_search_collaborators in objectLocked*
+//@   property C07
+//@   callee (*bbolt.Cursor).*, (*bbolt.Bucket).*
+//@   pureeffect
+
+// objectLocked$1 is the body of the range-over-func loop over the candidates: it returns false
+// (stop the iteration) only for a candidate that is a live, present lock.
+//@ func objectLocked$1
+//@   property C07
+//@   ensures [search_stops_only_at_a_live_present_lock] !result ==> candIsLock() && (currEpoch == 0 || candUnexpired()) && candNotRemoved()
+
+// A tombstone writes a garbage mark (for the target or any of its children) only on a path
+// where the target was found not locked; a tombstone whose target is a LOCK object, and a lock
+// whose target is already tombstoned, are rejected.
+//@ ghost pred targetNotLocked() bool
+//@ ghost pred targetStatus() uint8
+//@ callrule c07_lock_verdict in handleObjectWithAssociation
+//@   property C07
+//@   callee metabase.objectLocked
+//@   pureeffect
+//@   defines !result ==> targetNotLocked()
+//@ callrule c07_target_status in handleObjectWithAssociation
+//@   property C07
+//@   callee metabase.objectStatus
+//@   pureeffect
+//@   defines result == targetStatus()
+//@ callrule c07_tombstone_collaborators in handleObjectWithAssociation
+//@   property C07
+//@   callee (*bbolt.Cursor).*, (*bbolt.Bucket).Cursor, metabase.fetchTypeForID, metabase.collectChildren, metabase.get, metabase.inGarbage, metabase.mkGarbageKey, (object.Object).*, (*object.Object).*, (*oid.Address).*, (id.ID).*
+//@   pureeffect
+//@ callrule c07_garbage_mark_only_when_unlocked in handleObjectWithAssociation
+//@   property C07
+//@   callee (*bbolt.Bucket).Put
+//@   pureeffect
+//@   requires [no_mark_for_a_locked_target] targetNotLocked()
+//@ func handleObjectWithAssociation
+//@   property C07
+//@   ensures [lock_on_tombstoned_target_rejected] err == nil && typ == object.TypeLock ==> targetStatus() != statusTombstoned
+//@   ensures [tombstone_accepted_only_for_unlocked_target] err == nil && typ == object.TypeTombstone ==> targetNotLocked()
+//@   ensures [lock_object_cannot_be_tombstoned] err == nil && typ == object.TypeTombstone && targetTypErr == nil ==> targetTyp != object.TypeLock
